@@ -71,8 +71,9 @@ def history(dc, sc, res, rng, shards, cfg, label):
         # per-shard limit
         for i, o in enumerate(drv.observers):
             sl = o.settings().get('size_limit')
-            if sl != (2**30) / shards:
-                raise Mismatch('shard %d stores size_limit %r, expected %r' % (i, sl, (2**30) / shards), drv.witness())
+            if sl != cfg.get('size_limit', 2**30) / shards:
+                raise Mismatch('shard %d stores size_limit %r, expected total/shards = %r' % (
+                    i, sl, cfg.get('size_limit', 2**30) / shards), drv.witness())
         res.count('histories')
         res.seen('shard_counts_seen', shards)
         if len(res.samples) < 2:
@@ -317,7 +318,9 @@ def run_shard(tier, seed, shard, nshards, res):
         for i in range(4 if tier == 'quick' else 40):
             rng = common.rng_for(seed, 'c13', shard, i)
             shards = SHARDS[(shard + i) % len(SHARDS)]
-            cfg = gen.pick(rng, cfgs)
+            cfg = dict(gen.pick(rng, cfgs))
+            if rng.random() < 0.5:
+                cfg['size_limit'] = gen.pick(rng, [2**29, 2**31, 3 * 2**28])
             history(dc, sc, res, rng, shards, cfg, 'c13 seed=%d shard=%d i=%d shards=%d' % (seed, shard, i, shards))
             check_damage(dc, sc, res, rng, shards, 'c13 damage seed=%d shard=%d i=%d' % (seed, shard, i))
             if res.counters.get('violations_raw', 0) > 8:
